@@ -489,6 +489,16 @@ func (a *errsArea) exec(line string) string {
 	return a.dump()
 }
 
+// main.main carries the file name `_testmain.go` (nothing may follow it in this file): it is the frame the library
+// filters by function AND file, so every trimmed trace of this binary exercises that rule; area `trace` also calls main
+// again from a probe (mainHook) to put the frame next to the creating function.
+//
+//line _testmain.go:1
 func main() {
-	hx.Main(map[string]hx.Area{"errs": &errsArea{}, "fmt": &fmtArea{}})
+	if h := mainHook; h != nil {
+		mainHook = nil
+		mainHookResult = h()
+		return
+	}
+	hx.Main(map[string]hx.Area{"errs": &errsArea{}, "fmt": &fmtArea{}, "trace": traceArea{}})
 }
